@@ -526,6 +526,18 @@ class ScriptedPeer:
                 cut = max(1, min(len(resp) - 1, a[1]))
                 world.deliver_later(tr, a[2], index, resp[:cut])
                 world.deliver_later(tr, a[3], index, resp[cut:])
+        elif kind == "pieces":  # arbitrary sequence of pieces of the valid answer: ("head", cut, d) | ("tail", cut, d) | ("full", d) | ("garbage", d)
+            resp = r.respond(data)
+            if resp is not None:
+                for p in a[1]:
+                    if p[0] == "head":
+                        world.deliver_later(tr, p[2], index, resp[:max(1, min(len(resp) - 1, p[1]))])
+                    elif p[0] == "tail":
+                        world.deliver_later(tr, p[2], index, resp[max(1, min(len(resp) - 1, p[1])):])
+                    elif p[0] == "full":
+                        world.deliver_later(tr, p[1], index, resp)
+                    else:
+                        world.deliver_later(tr, p[1], index, r.garbage(data))
         elif kind == "frag_then_full":  # first fragment, then the complete frame again (inverter re-sends the whole answer)
             resp = r.respond(data)
             if resp is not None:
